@@ -9,6 +9,7 @@ from lib import gen_db, simreads, refmodels, record
 from lib.runner import Result, V, scratch
 
 ID = "C01"
+ISOLATE = True  # end-to-end solver calls: run every case in a killable child
 RULE = ("case = generated database spec (strand, pseudogene, alignment gaps, variant kinds) x build x two haplotype picks "
         "(any catalogued minor allele incl. fusion partials, or the whole-gene deletion) x 0-2 extra default-structure copies "
         "x read length x per-copy depth; reads are simulated error-free and genotype() is called on the BAM with a profile BAM "
